@@ -1470,6 +1470,8 @@ func (ex *Exec) execRange(p *Path, st *ast.RangeStmt) []outcome {
 		i := ex.c.Fresh("i", "Int")
 		bind(it, i)
 		it.Assume("(>= " + i + " 0)")
+		// a slice, string or array has at most MaxInt elements: the index after the last one is still an int
+		it.Assume("(<= " + length + " 9223372036854775807)")
 		ex.assumeInvariants(it, invs)
 		exit := it.Clone()
 		it.Assume("(< " + i + " " + length + ")")
